@@ -179,3 +179,35 @@ harness_s!(name=c06_ridge_gaussian_3, prop=C06, mode=R, kind=normal, tier=thorou
 // @nounwindassert c06_ridge_gaussian_60: on
 // @cap c06_ridge_gaussian_60: 15
 harness_s!(name=c06_ridge_gaussian_60, prop=C06, mode=R, kind=normal, tier=thorough, unwind=5, { ridge_gaussian(60) });
+
+// @bound c06_stderr_: Gaussian family, intercept-only design with three unit-weight observations, symbolic responses in +-100, penalty strength alpha in [0, 10] (instance: with / without penalty), two scoring iterations; solver inside fit replaced by its contract
+// @claim c06_stderr_: whenever fit reports success: the deviance is the residual sum of squares about the mean, the dispersion is deviance / (n - p), and the squared standard error of the intercept is dispersion x inverse Fisher information = dispersion / 3 - the penalty strength does not enter the information used for inference (R, sqrt axiom)
+// @cap c06_stderr_: 100
+fn stderr_gaussian(penalised: bool, part: u8) {
+    let y = [rng(0, -1.0e2, 1.0e2), rng(1, -1.0e2, 1.0e2), rng(2, -1.0e2, 1.0e2)];
+    let x = [1.0, 1.0, 1.0];
+    let mut glm = GLM::new(ExponentialFamily::Gaussian);
+    if penalised {
+        glm.set_penalty(rng(3, 0.01, 10.0));
+    }
+    let ok = glm.fit(&x, &y, 2).is_ok();
+    if ok {
+        let m = (y[0] + y[1] + y[2]) / 3.0;
+        let rss = (y[0] - m) * (y[0] - m) + (y[1] - m) * (y[1] - m) + (y[2] - m) * (y[2] - m);
+        if part == 0 {
+            let dev = glm.deviance().unwrap();
+            vclose!(dev, rss, 1e-6 * (1.0 + rss), "deviance = residual sum of squares");
+        } else if part == 1 {
+            let disp = glm.dispersion().unwrap();
+            vclose!(disp, rss / 2.0, 1e-6 * (1.0 + rss), "dispersion = deviance / (n - p)");
+        } else {
+            let se = glm.coef_standard_error().unwrap();
+            vassert!(se.len() == 1, "one standard error");
+            vclose!(se[0] * se[0] * 3.0, rss / 2.0, 1e-6 * (1.0 + rss), "squared standard error x information = dispersion");
+        }
+    }
+}
+harness_s!(name=c06_stderr_gaussian_dev, prop=C06, mode=R, kind=normal, tier=thorough, unwind=8, { stderr_gaussian(true, 0) });
+harness_s!(name=c06_stderr_gaussian_disp, prop=C06, mode=R, kind=normal, tier=thorough, unwind=8, { stderr_gaussian(true, 1) });
+harness_s!(name=c06_stderr_gaussian_se, prop=C06, mode=R, kind=normal, tier=thorough, unwind=8, { stderr_gaussian(false, 2) });
+harness_s!(name=c06_stderr_gaussian_se_pen, prop=C06, mode=R, kind=normal, tier=thorough, unwind=8, { stderr_gaussian(true, 2) });
